@@ -386,7 +386,15 @@ func TestVerif_C03(t *testing.T) {
 		rng := r.Rand("c03l", i)
 		cfg := rigCfg{Method: methods[i%4], NumConn: 1 + i%4, Router: true, Policy: "random", Seg: "all"}
 		sizes := []int{1 + rng.IntN(3000), 1 + rng.IntN(40000)}
-		r.Case(id, map[string]any{"cfg": cfg, "sizes": sizes})
+		if i%12 == 7 {
+			// a large unread backlog (several MiB) at the moment of the local Close
+			sizes = nil
+			for k := 0; k < []int{80, 120}[(i/12)%2]; k++ {
+				sizes = append(sizes, 65536)
+			}
+			cfg.Router = false
+		}
+		r.Case(id, map[string]any{"cfg": cfg, "writes": len(sizes), "bytes": sum(sizes)})
 		k, d := c03LocalUnread(t, r, id, cfg, sizes)
 		r.Distinct("cases", vk.Hash64("lu", cfg, sizes))
 		if k != "" {
